@@ -806,9 +806,12 @@ def hy_eval_user(model, globals = None, locals = None, module = None, macros = N
 
     if locals is None:
         locals = globals
-    hy_was = None
-    if locals and 'hy' in locals:
-        hy_was = (locals['hy'],)
+    # Remember whether each namespace we were given has a `hy`, so we
+    # can put things back the way they were.
+    hy_was = [
+        (d, (d['hy'],) if 'hy' in d else None)
+        for d in ([locals] if locals is globals else [globals, locals])
+        if d is not None]
     try:
         value = hy_eval(
             hytree = model,
@@ -819,14 +822,14 @@ def hy_eval_user(model, globals = None, locals = None, module = None, macros = N
             module = get_compiler_module(module, None, True),
             extra_macros = macros)
     finally:
-        if locals is not None:
-            if hy_was:
+        for d, was in hy_was:
+            if was:
                 # Restore the old value of `hy`.
-                locals['hy'], = hy_was
+                d['hy'], = was
             else:
                 # Remove the implicitly added `hy` (if execution
                 # reached far enough to add it).
-                locals.pop('hy', None)
+                d.pop('hy', None)
     return value
 
 
